@@ -109,9 +109,22 @@ fn attach_host(vm: &mut VM<StdLibState>) {
     vm.state.error_mode.set_default_terminal(std::rc::Rc::new(std::cell::RefCell::new(texlang_common::MockTerminalIn::default())));
 }
 
+/// Font selectors `\\fonta` … `\\fontd` (fonts 1..4), defined by the host through the public
+/// API of the command map: the standard library has no command that loads a font, and the VM's
+/// current font and font save stack are part of what a checkpoint must keep.
+const FONTS: &[&str] = &["fonta", "fontb", "fontc", "fontd"];
+
 fn new_vm() -> VM<StdLibState> {
     let mut vm = VM::<StdLibState>::new_with_built_in_commands(built_ins());
     attach_host(&mut vm);
+    for (i, n) in FONTS.iter().enumerate() {
+        let name = vm.cs_name_interner_mut().get_or_intern(n);
+        vm.commands_map.insert(
+            texlang::token::CommandRef::ControlSequence(name),
+            texlang::command::Command::Font(texlang::types::Font(i as u16 + 1)),
+            texcraft_stdext::collections::groupingmap::Scope::Global,
+        );
+    }
     vm
 }
 
@@ -347,6 +360,7 @@ fn state_digests(vm: &VM<StdLibState>) -> BTreeMap<String, String> {
         }
     }
     m.insert("code-tables".into(), digest(codes));
+    m.insert("current-font".into(), vm.current_font().0.to_string());
     m.insert("commands".into(), canon_cmds(vm, &names));
     m.insert("active-characters".into(), canon_active(vm, &names));
     m
@@ -502,6 +516,7 @@ enum MOp {
     Define { pre: i64, tk: i64, tn: i64, dk: i64, a: i64, b: i64 },
     ReadVar { kind: i64, idx: i64 },
     ReadCmd { tk: i64, tn: i64 },
+    SelectFont { pre: i64, f: i64 },
     Ckpt,
 }
 
@@ -515,6 +530,7 @@ fn enc_ops(ops: &[MOp]) -> Vec<i64> {
             MOp::Define { pre, tk, tn, dk, a, b } => v.extend([3, *pre, *tk, *tn, *dk, *a, *b]),
             MOp::ReadVar { kind, idx } => v.extend([5, 0, *kind, *idx]),
             MOp::ReadCmd { tk, tn } => v.extend([5, 1, *tk, *tn]),
+            MOp::SelectFont { pre, f } => v.extend([4, *pre, *f]),
             MOp::Ckpt => v.push(9),
         }
     }
@@ -542,6 +558,10 @@ fn dec_ops(v: &[i64]) -> Option<Vec<MOp>> {
             3 => {
                 ops.push(MOp::Define { pre: n(1)?, tk: n(2)?, tn: n(3)?, dk: n(4)?, a: n(5)?, b: n(6)? });
                 i += 7
+            }
+            4 => {
+                ops.push(MOp::SelectFont { pre: n(1)?, f: n(2)? });
+                i += 3
             }
             5 => {
                 match n(1)? {
@@ -712,6 +732,7 @@ fn render_op(op: &MOp, model: &str, last: bool) -> Rendered {
         MOp::Begin => plain("{".into()),
         MOp::End => plain("}".into()),
         MOp::Ckpt => plain(String::new()),
+        MOp::SelectFont { pre, f } => plain(format!("{}\\{} ", "\\zglobal".repeat(*pre as usize), FONTS[((*f as usize).max(1) - 1) % FONTS.len()])),
         MOp::Assign { pre, kind, idx, val } => {
             plain(format!("{}{}{}", "\\zglobal".repeat(*pre as usize), var_name(*kind, *idx), val_assign(*kind, *val)))
         }
@@ -822,11 +843,13 @@ fn gen_val(kind: i64, rng: &mut Rng) -> i64 {
     }
 }
 
+/// Register numbers: small ones (so that programs collide on them) and the boundaries of every
+/// width an index could be truncated to (255/256, the last register of each array).
 fn gen_idx(kind: i64, rng: &mut Rng) -> i64 {
-    if kind == 4 || kind == 5 {
-        rng.range(0, CODE_CHARS.len() as i64 - 1)
-    } else {
-        rng.range(0, 3)
+    match kind {
+        4 | 5 => rng.range(0, CODE_CHARS.len() as i64 - 1),
+        3 => *rng.pick(&[0i64, 1, 2, 3, 0, 1, 2, 3, 128, 255]),
+        _ => *rng.pick(&[0i64, 1, 2, 3, 0, 1, 2, 3, 255, 256, 300, 32767]),
     }
 }
 
@@ -872,7 +895,8 @@ fn gen_define(rng: &mut Rng, depth: usize) -> MOp {
         0 | 1 => (rng.range(0, 5), 0),
         2 | 6 => (rng.range(65, 90), 0),
         3 => (*rng.pick(&[0i64, 1, 291, 32767]), 0),
-        4 | 5 => (rng.range(0, 3), 0),
+        4 => (gen_idx(0, rng), 0),
+        5 => (gen_idx(3, rng), 0),
         9 => gen_target(rng),
         // a primitive meaning; for a built-in name half of the time its own
         10 => (if tk == 0 && tn >= 100 && rng.chance(1, 2) { tn - 100 } else { gen_prim(rng) }, 0),
@@ -938,6 +962,7 @@ fn gen_ops(rng: &mut Rng, size: usize) -> Vec<MOp> {
                 MOp::End
             }
             3..=6 => gen_assign(rng, depth),
+            7..=10 if rng.chance(1, 6) => MOp::SelectFont { pre: if depth > 0 && rng.chance(1, 4) { 1 } else { 0 }, f: rng.range(1, 4) },
             7..=10 => gen_define(rng, depth),
             _ => gen_read(rng, &seen_cmd, &seen_var),
         };
@@ -957,14 +982,14 @@ fn gen_ops(rng: &mut Rng, size: usize) -> Vec<MOp> {
             note(&op, &mut seen_cmd, &mut seen_var);
             ops.push(op);
         }
-        if depth == 0 {
-            break;
+        if depth == 0 || rng.chance(1, 5) {
+            break; // sometimes the program ends inside open groups: the final state is a level's
         }
         ops.push(MOp::End);
         depth -= 1;
         reads(&mut ops, rng, &seen_cmd, &seen_var);
     }
-    if rng.chance(1, 8) {
+    if depth == 0 && rng.chance(1, 8) {
         ops.push(MOp::End); // one `}` too many: an error after the checkpoint
     }
     reads(&mut ops, rng, &seen_cmd, &seen_var);
@@ -996,6 +1021,9 @@ fn gen_layers(rng: &mut Rng) -> Vec<MOp> {
         if level > 0 {
             ops.push(MOp::Begin);
         }
+        if rng.chance(1, 3) {
+            ops.push(MOp::SelectFont { pre: if level > 0 && rng.chance(1, 5) { 1 } else { 0 }, f: rng.range(1, 4) });
+        }
         for &(tk, tn) in &names {
             let own = if tk == 0 && tn >= 100 { Some(tn - 100) } else { None };
             let pre = if level > 0 && rng.chance(1, 6) { 1 } else { 0 };
@@ -1006,9 +1034,10 @@ fn gen_layers(rng: &mut Rng) -> Vec<MOp> {
                 3 => ops.push(def(10, gen_prim(rng), 0, pre)),
                 4 | 5 => ops.push(def(0, rng.range(0, 5), 0, pre)),
                 6 => {
-                    ops.push(def(4, rng.range(0, 3), 0, pre));
+                    let reg = gen_idx(0, rng);
+                    ops.push(def(4, reg, 0, pre));
                     if rng.chance(1, 2) {
-                        ops.push(MOp::Assign { pre: 0, kind: 0, idx: rng.range(0, 3), val: rng.range(1, 9) });
+                        ops.push(MOp::Assign { pre: 0, kind: 0, idx: reg, val: rng.range(1, 9) });
                     }
                 }
                 _ => {
@@ -1030,6 +1059,9 @@ fn gen_layers(rng: &mut Rng) -> Vec<MOp> {
     };
     read_all(&mut ops);
     for _ in 0..depth {
+        if rng.chance(1, 6) {
+            break; // the final state is that of an inner level
+        }
         ops.push(MOp::End);
         read_all(&mut ops);
     }
@@ -1362,6 +1394,151 @@ fn gen_conds(rng: &mut Rng) -> String {
     format!("tex {}<NL><CP>{}<NL>end<NL>", p1.join("<NL>"), p2.join("<NL>"))
 }
 
+/// Macro shapes: 1..3 macros, each with an optional prefix (tokens that must follow the name),
+/// 0..3 parameters that are undelimited or delimited by 1..2 tokens, optionally a final `#{`,
+/// optionally `\long` / `\global`, a replacement text that uses every parameter, defined
+/// at group depth 0..2; P2 calls every macro with matching arguments at every level while closing
+/// the groups (the call and its expected shape are built together with the definition).
+fn gen_macros(rng: &mut Rng) -> String {
+    let depth = rng.range(0, 2) as usize;
+    let mut p1: Vec<String> = vec![];
+    let mut calls: Vec<(usize, String)> = vec![]; // (level defined at, call text)
+    let n = rng.range(1, 3) as usize;
+    for i in 0..n {
+        let level = rng.range(0, depth as i64) as usize;
+        let name = format!("\\q{}", (b'A' + i as u8) as char);
+        let prefix = *rng.pick(&["", "", "ab", "=", "x y", "\\relax", "ab"]);
+        let n_par = rng.range(0, 3) as usize;
+        // a control word is followed by a space (skipped by the lexer) so that it never merges
+        // with the letters after it
+        let sp = |x: &str| if x.ends_with("relax") { format!("{x} ") } else { x.to_string() };
+        let prefix = sp(prefix);
+        let mut def = format!("{name}{prefix}");
+        let mut call = format!("{name}{prefix}");
+        let mut body = String::from("<");
+        for k in 1..=n_par {
+            let delim = sp(*rng.pick(&["", "", ".", "..", ",;", "\\relax", "!"]));
+            def.push_str(&format!("#{k}{delim}"));
+            let arg = *rng.pick(&["X", "{Y Z}", "pq", "{}", "7"]);
+            // an undelimited argument of several tokens must be braced; a delimited one ends at its delimiter
+            let arg = if delim.is_empty() && arg.len() > 1 && !arg.starts_with('{') { "{pq}" } else { arg };
+            call.push_str(&format!("{arg}{delim}"));
+            body.push_str(&format!("#{k}|"));
+        }
+        if n_par > 0 && rng.chance(1, 5) {
+            def.push('#');
+            call.push_str("{tail}");
+        }
+        body.push('>');
+        let pre = format!("{}{}", if rng.chance(1, 4) { "\\long" } else { "" }, if level > 0 && rng.chance(1, 4) { "\\global" } else { "" });
+        p1.push(format!("L{level}:{pre}\\def{def}{{{body}}}"));
+        calls.push((if pre.contains("\\global") { 0 } else { level }, call));
+    }
+    // order the definitions by level and open the groups in between
+    let mut lines: Vec<String> = vec![];
+    for level in 0..=depth {
+        if level > 0 {
+            lines.push("{".into());
+        }
+        for l in &p1 {
+            if let Some(d) = l.strip_prefix(&format!("L{level}:")) {
+                lines.push(d.to_string());
+            }
+        }
+    }
+    let mut p2: Vec<String> = vec![];
+    for level in (0..=depth).rev() {
+        for (lv, call) in &calls {
+            if *lv <= level {
+                p2.push(format!("/{call}"));
+            }
+        }
+        if level > 0 {
+            p2.push("}".into());
+        }
+    }
+    format!("tex {}<NL><CP>{}<NL>", lines.join("<NL>"), p2.join("<NL>"))
+}
+
+/// Register values in their full syntax: counts at the extremes, dimensions with fractions and
+/// signs, glue with every order (pt, fil, fill, filll) on the stretch and on the shrink, token
+/// lists with every kind of token (letters, others, spaces, braces, parameter characters, control
+/// words and symbols, active characters), at small and at boundary register numbers, at group
+/// depth 0..3 with and without `\global`; P2 reads every touched register with `\the` at every
+/// level while closing the groups.
+fn gen_values(rng: &mut Rng) -> String {
+    let depth = rng.range(0, 3) as usize;
+    let mut p1: Vec<String> = vec![];
+    let mut touched: Vec<String> = vec![];
+    let mut unreadable: Vec<String> = vec![];
+    let unit = |rng: &mut Rng| *rng.pick(&["pt", "fil", "fill", "filll"]);
+    let num = |rng: &mut Rng| *rng.pick(&["0", "1", "-1", "2.5", "-0.33333", "16383.99998", "100"]);
+    for level in 0..=depth {
+        if level > 0 {
+            p1.push("{".into());
+        }
+        for _ in 0..rng.range(1, 3) {
+            let g = if rng.chance(1, 4) { "\\global" } else { "" };
+            let (reg, val) = match rng.below(4) {
+                0 => (
+                    format!("\\count {}", gen_idx(0, rng)),
+                    rng.pick(&["0", "-2147483647", "2147483647", "'777", "\"7FFF", "`\\a", "-\\count 1"]).to_string(),
+                ),
+                1 => (format!("\\dimen {}", gen_idx(1, rng)), format!("{}pt", num(rng))),
+                2 => {
+                    let mut v = format!("{}pt", num(rng));
+                    if rng.chance(2, 3) {
+                        v.push_str(&format!(" plus {}{}", num(rng), unit(rng)));
+                    }
+                    if rng.chance(2, 3) {
+                        v.push_str(&format!(" minus {}{}", num(rng), unit(rng)));
+                    }
+                    (format!("\\skip {}", gen_idx(2, rng)), v)
+                }
+                _ => {
+                    // `\the\toks` hands the tokens back to the main loop, which executes them: lists
+                    // with commands other than \relax are stored (and compared through the state
+                    // digest) but not read back
+                    let (v, readable) = *rng.pick(&[
+                        ("{}", true),
+                        ("{a b}", true),
+                        ("{\\relax x\\relax}", true),
+                        ("{{nested}{}}", true),
+                        ("{#1##}", false),
+                        ("{~\\~ \\ \\undefinedname}", false),
+                        ("{12 pt\\def\\let\\count}", false),
+                    ]);
+                    let reg = format!("\\toks {}", gen_idx(3, rng));
+                    if !readable {
+                        unreadable.push(reg.clone());
+                    }
+                    (reg, v.to_string())
+                }
+            };
+            p1.push(format!("{g}{reg}={val} "));
+            if !touched.contains(&reg) {
+                touched.push(reg);
+            }
+        }
+    }
+    let reads = |p2: &mut Vec<String>| {
+        let mut l = String::from("/");
+        for r in &touched {
+            if !unreadable.contains(r) {
+                l.push_str(&format!("\\the{r},"));
+            }
+        }
+        p2.push(l);
+    };
+    let mut p2: Vec<String> = vec![];
+    reads(&mut p2);
+    for _ in 0..depth {
+        p2.push("}".into());
+        reads(&mut p2);
+    }
+    format!("tex {}<NL><CP>{}<NL>", p1.join("<NL>"), p2.join("<NL>"))
+}
+
 /// Unmodelled state: (line for P1, lines for P2 that make it observable). P2 lines are repeated
 /// after every `}` that closes a group left open by P1.
 const FEATURES: &[(&str, &str)] = &[
@@ -1646,6 +1823,7 @@ impl C08 {
         }
         let mut sent = enc_ops(&prelude);
         sent.extend(&ints);
+        sent.extend([5, 2, 0, 0]); // the model's final current font (compared with `VM::current_font`)
         let reply = drv.ask(&format!("p {variant} {}", join(&sent)));
         let parts: Vec<&str> = reply.split(" | ").collect();
         if parts.len() != 3 {
@@ -1739,9 +1917,16 @@ impl C08 {
         check(&mut o, "before the checkpoint", a.r1.out(), &expect1, true);
         if let Some(r2) = &a.r2 {
             match (r2, model_err) {
-                (Run::Ok(out), None) => check(&mut o, "after the checkpoint", out, &expect2, true),
+                (Run::Ok(out), None) => {
+                    check(&mut o, "after the checkpoint", out, &expect2, true);
+                    let model_font = words.get(wi).and_then(|w| w.strip_prefix('f')).unwrap_or("?");
+                    let real_font = a.fin.get("current-font").map(|x| x.as_str()).unwrap_or("?");
+                    if model_font != real_font {
+                        o.fail(Kind::ImplVsModel, "reads", "final current font differs from the model", format!("model {model_font}, real {real_font}"));
+                    }
+                }
                 (Run::Err(c), Some("EG")) if c.contains("end") => o.tag("p2-no-group-to-end"),
-                (Run::Err(c), None) if c.contains("undefined") && ops.last().map(|l| matches!(l, MOp::ReadCmd { .. })).unwrap_or(false) && words.last() == Some(&"?") => {
+                (Run::Err(c), None) if c.contains("undefined") && ops.last().map(|l| matches!(l, MOp::ReadCmd { .. })).unwrap_or(false) && wi > 0 && words.get(wi - 1) == Some(&"?") => {
                     o.tag("p2-undefined-last")
                 }
                 (r, m) => o.fail(Kind::ImplVsModel, "reads", "after the checkpoint: result class differs from the model", format!("real {}, model {:?}", r.class(), m)),
@@ -1864,6 +2049,9 @@ impl Property for C08 {
          files: 1..3 files of 0..6 lines (blank, comment-only, brace groups spanning lines, with/without final newline, a missing file), 1..3 \\openin streams (sharing files), k guarded \\read per stream before the checkpoint for random k in 0..lines+1, interleaved, sometimes in a group or after \\closein; after it interleaved guarded reads to exhaustion and \\ifeof of every stream. \
          alloc: 3..14 steps over \\newInt/\\newIntArray (length 0..4) on four names incl. re-allocation with the same or the other kind, local/\\global element assignments at depth 0..3; after the checkpoint all elements read, one more allocation, groups closed one by one with all elements read after each. \
          conds: 1..5 open conditionals nested in any order, each in one of 7 states (true / else branch, case branch, first case, default branch, \\ifnum, \\ifodd-else), closed inside-out, 1 in 10 closers illegal for the state. \
+         macros: 1..3 macros with optional prefix tokens, 0..3 undelimited/delimited parameters, optional final #{, \\long/\\global, at group depth 0..2, called with matching arguments at every level after the checkpoint. \
+         values: count/dimen/skip/toks in their full value syntax (extremes, fractions, signs, every glue order on stretch and shrink, token lists with every kind of token) at register numbers 0..3, 255, 256, 300, 32767, depth 0..3, with/without \\global, read with \\the at every level. \
+         Fonts: the host defines selectors \\fonta..\\fontd (fonts 1..4) through Map::insert; ops/layers select them locally and globally; VM::current_font is part of the state digests and of the model comparison; programs sometimes end inside open groups. \
          All VMs have the stdlib built-ins plus the script component's \\par and \\newline, and an exhausted mock terminal. \
          tex: random selections from a table of unmodelled state (parameterised and delimited macros, \\long, catcode changes incl. active letters and code points > 127, \\endlinechar, token lists with control sequences, \\newInt/\\newIntArray, interaction modes, glue, \\let to 20 primitives incl. conditionals, interned-but-undefined names, pending output white space) inside open groups and open conditionals (\\iftrue, \\iffalse\\else, \\ifcase, \\ifnum, \\ifodd, nested) that P2 closes; every probe is repeated after every closing brace. \
          Each case runs 4 VMs (no checkpoint, JSON, MessagePack, bincode). Non-trivial = P1 runs to its end without error (a checkpoint is taken); distinct = distinct case string."
@@ -1960,8 +2148,16 @@ impl Property for C08 {
     }
     fn generate(&mut self, ctx: &Ctx, rng: &mut Rng) -> Vec<String> {
         let mut v = vec![];
-        let (n_ops, n_layers, n_tex, n_codes, n_files, n_alloc, n_conds) =
-            if ctx.thorough { (2500, 1200, 2000, 1200, 900, 900, 500) } else { (200, 130, 170, 120, 110, 110, 50) };
+        let (n_ops, n_layers, n_tex, n_codes, n_files, n_alloc, n_conds, n_macros, n_values) =
+            if ctx.thorough { (2500, 1200, 2000, 1200, 900, 900, 500, 700, 700) } else { (180, 120, 150, 100, 90, 90, 50, 70, 70) };
+        let mut r = rng.fork();
+        for _ in 0..n_macros {
+            v.push(gen_macros(&mut r));
+        }
+        let mut r = rng.fork();
+        for _ in 0..n_values {
+            v.push(gen_values(&mut r));
+        }
         let mut r = rng.fork();
         for i in 0..n_ops {
             let size = [3, 6, 10, 16, 24][i % 5];
